@@ -251,6 +251,11 @@ def print_probe(run_, prog, out, prop):
                 m = re.search(r"shape: \((\d+), (\d+)\)", text)
                 mh = re.search(r"shape: \((\d+), (\d+)\)", html)
                 for name, mm, body in (("print", m, text), ("html", mh, html)):
+                    if mm is None and "export failed" in body and _engine_bug_in_printed_export(prog, body):
+                        # the head/tail export that printing runs hit a Polars engine bug (D16): the printed form
+                        # reports the failure as designed, there is no frame to compare with
+                        run_.counters["print_probes_excluded_D16"] += 1
+                        continue
                     if mm is None:
                         # a Polars-backed table prints its rows: no shape line means the printed form carries no columns at all
                         out.findings.append(Finding("meta:" + be, be, h, f"{name} form of the table has no shape line: {body[:160]!r}", verb="repr"))
@@ -268,6 +273,19 @@ def print_probe(run_, prog, out, prop):
                         out.findings.append(Finding("meta:" + be, be, h, f"HTML header {hdr} != exported names {list(df.columns)}", verb="repr"))
     for v in M.SAN.drain():
         out.findings.append(Finding("san:" + v["inv"], "pol", None, v["detail"], verb=v["verb"]))
+
+
+def _engine_bug_in_printed_export(prog, body):
+    """D16 for the export that printing performs on the first / last rows: the row slice can make a condition
+    column uniform that is not uniform in the whole table, so the full export may be fine while this one fails."""
+    import html as _html
+
+    from .. import runner as R
+
+    msg = _html.unescape(body)
+    return bool(R.ENGINE_BUG_RE.search(msg) or "to be broadcasted, ensure it is a scalar" in msg) and (
+        R._has_horizontal(prog) or R.has_literal_case_under_operator(prog) or R.has_constant_condition(prog) or R.has_literal_left_comparison(prog)
+    )
 
 
 def name_probe(run_, prog, out):
